@@ -36,6 +36,8 @@ INTERFACE = ["privval", "pubval", "zero", "one", "fieldinverse", "get_modulus", 
 
 PROBE = r'''
 import json, sys, os
+for m in %(blocked)r:
+    sys.modules[m] = None
 report = dict(preimport_errors=[])
 for m in %(pre)r:
     try:
@@ -70,10 +72,15 @@ json.dump(report, open("report.json", "w"))
 def expected(pre, envname, loadable):
     """the three-stage rule. returns dict(kind='select', names={...}) | dict(kind='fail') , plus diag flag"""
     pre_names = [n for n, m in REGISTRY if m in pre]
+    blocked = set(loadable.get("blocked") or [])     # sys.modules[name] = None: the module cannot be imported, and it was not imported
     loadable = {k: (v is True) for k, v in loadable.items()}
+
+    def can(n):
+        return (NAME2MOD[n] not in blocked and all(NAME2MOD[b] not in blocked for b in IMPLIES.get(n, []))
+                and (NEEDS[n] is None or loadable[NEEDS[n]]))
     pre_loaded = []
     for n in pre_names:
-        if NEEDS[n] is None or loadable[NEEDS[n]]:
+        if can(n):
             pre_loaded.append(n)
     if pre_loaded:
         # derived pre-imports drag their base in; the derived one is the backend in effect
@@ -84,12 +91,12 @@ def expected(pre, envname, loadable):
                     cands.discard(base)
         return dict(kind="select", names=cands, stage=1, diag=False)
     if envname is not None and envname in NAME2MOD:
-        if NEEDS[envname] is None or loadable[NEEDS[envname]]:
+        if can(envname):
             return dict(kind="select", names={envname}, stage=2, diag=False)
         return dict(kind="fail", stage=2, diag=False)
     diag = envname is not None
     for n, m in REGISTRY:
-        if NEEDS[n] is None or loadable[NEEDS[n]]:
+        if can(n):
             return dict(kind="select", names={n}, stage=3, diag=diag)
     return dict(kind="fail", stage=3, diag=diag)
 
@@ -128,6 +135,11 @@ def configurations(tier):
     for env in (None, "nosuchbackend", "snarkjs"):
         for ldb in (dict(flatbuffers=True, qaptools=False, libsnark=False), dict(flatbuffers=False, qaptools=True, libsnark=False)):
             out.append(((), env, dict(ldb, ipython=True)))
+    # backend modules blocked the Python way (sys.modules[name] = None): not pre-imported, not importable; everything else as usual
+    for blk in (["pysnark.libsnark.backend"], ["pysnark.snarkjsbackend"], ["pysnark.libsnark.backend", "pysnark.qaptools.backend"],
+                ["pysnark.zkinterface.backend"], ["pysnark.nobackend"]):
+        for env in (None, "snarkjs", "nobackend", "zkinterface", "zkifbellman", "nosuchbackend", "libsnark"):
+            out.append(((), env, dict(flatbuffers=True, qaptools=False, libsnark=False, blocked=blk)))
     seen, uniq = set(), []
     for pre, env, ld in out:
         k = (pre, env, tuple(sorted((a, str(b)) for a, b in ld.items())))
@@ -169,7 +181,7 @@ def run_probe(pre, env, ld, wd, autoprove_off=False):
     extra["QAPTOOLS_BIN"] = os.path.join(boot.SHIMS, "qaptools_bin") if ld["qaptools"] else os.path.join(wd, "no-such-dir")
     extra["PYSNARK_KEYDIR"] = "keys"
     os.makedirs(os.path.join(wd, "keys"), exist_ok=True)
-    open(os.path.join(wd, "probe.py"), "w").write(PROBE % dict(pre=list(pre), iface=INTERFACE, autoprove_off=autoprove_off))
+    open(os.path.join(wd, "probe.py"), "w").write(PROBE % dict(pre=list(pre), iface=INTERFACE, autoprove_off=autoprove_off, blocked=list(ld.get("blocked") or [])))
     pr = subprocess.run([boot.PY, "probe.py"], cwd=wd, env=boot.child_env(extra, shims=shims), stdout=subprocess.PIPE, stderr=subprocess.PIPE, timeout=120)
     rep = None
     if os.path.exists(os.path.join(wd, "report.json")):
@@ -194,6 +206,8 @@ def worker(job):
             ldcls += "+libsnark-broken"
         if ld.get("ipython"):
             ldcls += "+ipython-installed"
+        if ld.get("blocked"):
+            ldcls += "+blocked:" + ",".join(m.split(".")[-2 if m.endswith(".backend") else -1] for m in ld["blocked"])
         cell = "stage%d|env-%s|load-%s|pre%d" % (exp["stage"], envcls, ldcls, len(pre))
         det = dict(preimport=pre, env=env, loadable=ld, exit_status=rc, report=rep, stdout_tail=out[-300:], stderr_tail=err[-400:], expected=dict(exp, names=sorted(exp.get("names", []))))
         R.case(cell=cell, key=(tuple(pre), env, ldcls))
